@@ -167,8 +167,15 @@ func applyProfile(t *Tape, property string, sc *Scenario, cfg *Config) {
 		// ready-but-not-yet-available windows
 		sc.MinReady = []int{0, 0, 5, 30}[t.Next(4)]
 	case "C09":
-		if t.Next(3) == 0 {
+		switch t.Next(4) {
+		case 0:
 			sc.Events = append(sc.Events, UserEvent{Kind: "shrink-plan-late"}, UserEvent{Kind: "delete-rollout-late"})
+		case 1:
+			// invalid edits at arbitrary instants, also right after a deletion request (finalizer still there)
+			sc.Events = append(sc.Events, UserEvent{Kind: "invalid-spec-edit", AtStep: 1 + t.Next(len(sc.Steps)), AtState: stepStates[t.Next(len(stepStates))], Arg: t.Next(1000)})
+		case 2:
+			sc.Events = append(sc.Events, UserEvent{Kind: "delete-rollout", AtStep: 1 + t.Next(len(sc.Steps)), AtState: stepStates[t.Next(len(stepStates))]},
+				UserEvent{Kind: "invalid-spec-edit", After: "delete-rollout", Arg: t.Next(1000)})
 		}
 	case "C02":
 		if t.Next(4) == 0 {
@@ -213,6 +220,16 @@ func applyProfile(t *Tape, property string, sc *Scenario, cfg *Config) {
 		} else if t.Next(2) == 1 {
 			k := []string{"release-v3", "rollback"}[t.Next(2)]
 			sc.Events = append([]UserEvent{{Kind: k, AtStep: 1 + t.Next(len(sc.Steps)), AtState: stepStates[t.Next(len(stepStates))]}}, sc.Events...)
+		} else if property == "C10" && len(sc.Steps) > 1 && t.Next(2) == 1 {
+			// the cancellation meets a cursor that has just been moved: a jump (often back to step one) from a later
+			// step, and the rollback / newer release a moment after it
+			to := 1
+			if t.Next(3) == 0 {
+				to = 1 + t.Next(len(sc.Steps))
+			}
+			k := []string{"rollback", "release-v3"}[t.Next(2)]
+			sc.Events = []UserEvent{{Kind: "jump", AtStep: 2 + t.Next(len(sc.Steps)-1), AtState: stepStates[2+t.Next(4)], Arg: to},
+				{Kind: k, After: "jump", Arg: t.Next(4)}}
 		}
 	case "C08":
 		for i, n := 0, 1+t.Next(3); i < n; i++ {
